@@ -37,6 +37,9 @@ structure Inflight where
   paths : List Path := []          -- per integration, decided at flush start (accept assumed)
   supp : List (Nat × String) := [] -- alerts withheld by this flush and why (silenced | inhibited | time-muted)
   before : String := ""            -- model entries at flush start
+  tm : Bool := false               -- the route is time-muted at the flush's tick
+  allSil : Bool := false           -- every alert of the flush is silenced
+  gateRun : Bool := false          -- some alert passes the inhibit stage: the time stages run and write the group marker
 
 structure GSt where
   g : Group
@@ -128,6 +131,7 @@ def showEntry3 (o : Option Entry) : String :=
   | some e => s!"{e.ts},{showNatList (sortNat e.firing)},{showNatList (sortNat e.resolved)}"
 
 def entriesOf (σ : St) (g : String) : String :=
+  if σ.srs.isEmpty then "-" else
   ";".intercalate ((List.range σ.srs.length).map fun i => showEntry3 (query σ.nf (keyOf g i)))
 
 def parseEntry3 (k : String) (s : String) : Option Entry :=
@@ -144,24 +148,36 @@ def step0 (σ : St) (op obs : List String) : St × List Msg :=
   | ["post", now, id, _start, _end], [s, e, u] =>
     let now := toInt! now; let id := toNat! id
     let a : GAlert := { id, starts := toInt! s, ends := toInt! e, upd := toInt! u }
+    -- mem.Alerts.Put (C13 refire_after_end_starts_anew, C06 "re-created with a fresh group_wait by the next alert"): a submission that
+    -- starts at or after the instant the stored episode ended does not overlap it and keeps its own start
+    let pStart := toInt! _start; let pEnd := toInt! _end
+    let pfRefire : List Msg := match lookup σ.provider id with
+      | some old =>
+        if old.ends ≤ pStart ∧ pStart ≤ pEnd then
+          (if a.starts = pStart then [Msg.tag (if old.ends = pStart then "post:refire-at-old-end" else "post:refire-after-old-end")]
+           else [Msg.propfail "refire_after_end_starts_anew" "merged-without-overlap"
+                   (s!"alert={id} now={now}: the stored episode [{old.starts}, {old.ends}] had ended when the submission [{pStart}, {pEnd}] starts, stored start={a.starts}" ++
+                   (if a.starts + σ.gw < now ∧ ¬ (pStart + σ.gw < now) then " (a group re-created for it is flushed at once instead of after group_wait)" else ""))])
+        else []
+      | none => []
     let σ := { σ with provider := put σ.provider id a }
     let g := groupOf id
     match getG σ g with
     | some gs =>
       match insert gs.g a with
       | some g' => (setG σ g { gs with g := g' }, [.tag (if gs.inflight.isSome then "post:during-flush" else "post:existing")]
-                      ++ (if a.resolvedAt now then [.tag "post:resolved"] else []))
-      | none => (setG σ g { g := create now σ.gw a, created := now }, [.tag "post:recreate"])
+                      ++ (if a.resolvedAt now then [.tag "post:resolved"] else []) ++ pfRefire)
+      | none => (setG σ g { g := create now σ.gw a, created := now }, [.tag "post:recreate"] ++ pfRefire)
     | none =>
       -- groupAlert: the counter follows the map (live groups + destroyed ones not yet collected); a destroyed
       -- group still mapped is replaced in place (CompareAndSwap) without touching the counter
       let (gm', admitted) := gstep σ.limit σ.gm (.ingest g)
       if !admitted then
-        ({ σ with limitedAt := (id, now) :: σ.limitedAt }, [.tag "post:limited"])
+        ({ σ with limitedAt := (id, now) :: σ.limitedAt }, [.tag "post:limited"] ++ pfRefire)
       else
         let σ' := { σ with gm := gm' }
         (setG σ' g { g := create now σ.gw a, created := now },
-          [.tag (if σ.gm.dead.contains g then "post:recreate-cas" else if a.starts + σ.gw < now then "post:create-old" else "post:create")])
+          [.tag (if σ.gm.dead.contains g then "post:recreate-cas" else if a.starts + σ.gw < now then "post:create-old" else "post:create")] ++ pfRefire)
   | ["post", _, _, _, _], ["notstored"] => (σ, [.diff "post" "stored" "notstored"])
   | ["adv", _], _ => (σ, [])
   | ["sil", now, id, dur], ["ok"] =>
@@ -258,7 +274,9 @@ def step0 (σ : St) (op obs : List String) : St × List Msg :=
       let supp : List (Nat × String) := part.filterMap fun (a, _) => (AM.Suppress.reason v a.id).map fun r => (a.id, r)
       let survivors := AM.Suppress.surviving v (part.map fun (a, r) => (a.id, r))
       let unm := part.filter fun (a, r) => survivors.contains (a.id, r)
-      let fl : Inflight := { tick, wall, snap := resolvedSlice gs.g wall, supp,
+      let fl : Inflight := { tick, wall, snap := resolvedSlice gs.g wall, supp, tm,
+                             allSil := !part.isEmpty && part.all (fun (a, _) => silenced σ a.id wall),
+                             gateRun := part.any fun (a, _) => !inhibited σ a.id wall,
                              firing := (unm.filter (!·.2)).map (·.1.id), resolved := (unm.filter (·.2)).map (·.1.id) }
       let tags := [Msg.tag "flush"] ++ (if tick < wall then [Msg.tag "flush:overrun"] else [])
         ++ (if supp.any (·.2 = "silenced") then [Msg.tag "flush:muted"] else [])
@@ -328,7 +346,7 @@ def step0 (σ : St) (op obs : List String) : St × List Msg :=
       | some fl => (setG σ g { gs with inflight := some { fl with tries := fl.tries + 1 } }, [.tag "try:failed"])
       | none => (σ, [])
     | none => (σ, [])
-  | ["ev", "end", wall, g, _, res, ents], _ =>
+  | "ev" :: "end" :: wall :: g :: _ :: res :: ents :: mk, _ =>
     let wall := toInt! wall
     match getG σ g with
     | none => (σ, [.diff "end" "group" "none"])
@@ -365,6 +383,25 @@ def step0 (σ : St) (op obs : List String) : St × List Msg :=
           if a ≠ b ∧ !sent ∧ !shortcut ∧ gs.lastEntries ≠ "" ∧ (after.splitOn ";").getD i "none" = a ∧ false then
             acc ++ [Msg.propfail "log_only_after_success" "log-without-send" s!"group={g} integration={i} before={b} after={a}"] else acc) []
         let mRes := expectEq "end.result" (if okAll then "ok" else "err") res
+        -- C07: the route's receiver has a pipeline even when it has no integrations (a blackhole receiver): the flush succeeds
+        let pfRecv := if σ.srs.isEmpty then
+            (if res = "ok" then [Msg.tag "end:no-integrations"] else
+             [Msg.propfail "every_selected_route_has_receiver" "receiver-without-stage"
+                s!"group={g}: the route's receiver has no integrations; its flush at wall={fl.wall} must succeed with nothing sent, result={res}"])
+          else []
+        -- C15: the group's muted marker (what the API reports) follows the calendar at every flush whose alerts reach the
+        -- time stages (inhibition comes first in the chain) — also when silences then cover every alert of the flush
+        let pfMark := match mk with
+          | [m] =>
+            if fl.gateRun then
+              (if m = (if fl.tm then "1" else "0") then
+                 (if fl.tm then [Msg.tag "marker:muted"] else []) ++
+                 (if (σ.mute.isSome ∨ σ.active.isSome) ∧ fl.allSil
+                  then [Msg.tag (if fl.tm then "marker:muted-all-silenced" else "marker:open-all-silenced")] else [])
+               else [Msg.propfail "route_gate" "muted-marker-stale"
+                 s!"group={g}: after the flush at tick={fl.tick} the group marker says muted={m}, the route's intervals say muted={fl.tm} at that instant"])
+            else []
+          | _ => []
         let pfDeadline := if wall > fl.wall + timeoutOf σ then
           [Msg.propfail "flush_gap_le" "deadline-overrun" s!"group={g} start={fl.wall} end={wall} timeout={timeoutOf σ}"] else []
         let g1 := if res = "ok" then deleteIfNotModified gs.g fl.snap else gs.g
@@ -374,7 +411,7 @@ def step0 (σ : St) (op obs : List String) : St × List Msg :=
           ++ (if res ≠ "ok" then [Msg.tag "end:failed"] else [])
         let σ2 := if g1.destroyed then { delG σ1 g with gm := (gstep σ1.limit σ1.gm (.destroy g)).1 }
                   else setG σ1 g { gs with g := g1, inflight := none, lastEnd := wall, lastEntries := ents, prevSupp := fl.supp }
-        (σ2, msgs ++ mEnt ++ pfLog ++ mRes ++ pfDeadline ++ tags ++ (if g1.destroyed then [.tag "end:destroyed"] else []))
+        (σ2, msgs ++ mEnt ++ pfLog ++ mRes ++ pfRecv ++ pfMark ++ pfDeadline ++ tags ++ (if g1.destroyed then [.tag "end:destroyed"] else []))
   | _, _ => (σ, [.diff "parse" "?" (" ".intercalate op)])
 
 /-- every line carries its instant; the dispatcher's maintenance (every 15 s from its start) removes the
